@@ -1,6 +1,7 @@
 package props
 
 import (
+	"bytes"
 	"fmt"
 	"github.com/ProtonMail/gluon/imap"
 	"sort"
@@ -796,7 +797,7 @@ func (x *c15Run) search(a core.Action) {
 	if x.s0.HasPendingUpdate() {
 		e.St.Probes["search_with_parked_updates"]++
 	}
-	form := a.Arg(0) % 5
+	form := a.Arg(0) % 6
 	withUID := a.Arg(1)%3 != 0
 	charset := c15Charset(a.Arg(2), e.Sc.C("charsetx") == 1)
 	if charset != "" {
@@ -813,6 +814,54 @@ func (x *c15Run) search(a core.Action) {
 	}
 	n := uint32(len(x.view.Rows))
 	switch form {
+	case 5:
+		// a string with a non-ASCII letter, sent in the charset the command names: as
+		// ISO-8859-1 bytes with CHARSET ISO-8859-1, as UTF-8 bytes with CHARSET UTF-8; both must
+		// find the word written in UTF-8 in the messages, for every key that takes a string
+		word := "caf\xc3\xa9"
+		wire8 := []byte(word)
+		cs := "CHARSET UTF-8 "
+		if a.Arg(2)%2 == 0 {
+			wire8, cs = []byte("caf\xe9"), "CHARSET ISO-8859-1 "
+		}
+		if a.Arg(3)%5 == 4 {
+			word, wire8 = "caf\xc3\xa8", append(append([]byte(nil), wire8[:3]...), wire8[3:]...) // (kept simple: the absent variant is UTF-8 only)
+			wire8, cs = []byte(word), "CHARSET UTF-8 "
+		}
+		lit := []c15Seg{{IsLit: true, Lit: wire8}}
+		var k *c15Key
+		switch a.Arg(3) % 3 {
+		case 0:
+			k = &c15Key{Kind: "SUBJECT", Segs: c15Join(c15Text("SUBJECT "), lit), Eval: func(_ *c15View, r *c15Row) tri {
+				if r.Msg == nil {
+					return triU
+				}
+				return c15HeaderMatch(r.Msg.Hdr["subject"], word)
+			}}
+		case 1:
+			k = &c15Key{Kind: "HEADER", Segs: c15Join(c15Text("HEADER Subject "), lit), Eval: func(_ *c15View, r *c15Row) tri {
+				if r.Msg == nil {
+					return triU
+				}
+				if len(r.Msg.Hdr["subject"]) == 0 {
+					return triF
+				}
+				return c15HeaderMatch(r.Msg.Hdr["subject"], word)
+			}}
+		default:
+			k = &c15Key{Kind: "BODY", Segs: c15Join(c15Text("BODY "), lit), Eval: func(_ *c15View, r *c15Row) tri {
+				if r.Msg == nil || !r.Msg.BodyJudged {
+					return triU
+				}
+				raw := bytes.Contains(r.Msg.Body, []byte(word))
+				if r.Msg.Multipart && raw != bytes.Contains(r.Msg.TextOnly, []byte(word)) {
+					return triU
+				}
+				return triOf(raw)
+			}}
+		}
+		e.St.Probes["latin1_probe"]++
+		x.query(k, withUID, cs, true)
 	case 0:
 		k := g.build(0)
 		x.query(k, withUID, charset, true)
